@@ -42,7 +42,7 @@ PROPS = {
         "partial": ["'always gets a warning' is proved for the request subset whose outcome / failure is returned (lint_survives, lint_survives_error, lint_single_level); for a special-angle request at a level that was never attempted or was abandoned the code emits nothing - the statement is false of the code there (known finding F12; machine-checked negation witness lint_lost_below_solved_priority, general form no_warning_above_solved_priority)",
                     "'none for solves that start near a non-degenerate solution' is a claim about the iterates of the f64 loop: searched by the oracle, not proved; what is proved is that the Degenerate notices of a run are EXACTLY the notices of the flags raised at the configurations it visited, in order, without de-duplication (newtonLoop_warnings_eq, warning_indices_visited, degenerate_reported; Proofs/Visited.lean, Properties/C07b.lean), what the flag means geometrically per kind (degenerate_sound_*), and that a collapse at the guess is always reported for the guarded kinds (degenerate_complete_at_guess, per level: a collapsed request above the solved priority gets no notice, same shape as F12); the values returned after a step-size stop are never evaluated for degeneracy",
                     "kinds without a guard never raise the flag (never_degenerate_kinds: Parallel, Perpendicular, Vertical, Horizontal, Midpoint, PointsCoincident, Arc, the horizontal / vertical distances): a zero-length line in one of those gets no notice - 'zero-length line' in the statement is covered for the guarded kinds only",
-                    "zero radius is not guarded for circles (CircleRadius, CircleTangentToCircle never raise the flag; circle_kinds_unguarded): 'zero radius' in the statement is covered for arcs only"],
+                    "zero radius is not guarded for circles (CircleRadius never raises the flag, circle_kinds_unguarded; CircleTangentToCircle raises it for coincident centres only - degenerate_sound_circleTangentToCircle, after fix d85fbd0): 'zero radius' in the statement is covered for arcs only"],
         "assumptions": ["EPSILON is the value extracted from lib.rs on this run; the angle lint theorems are over the reals (pi*180/pi = 180 exactly), the f64 behaviour at the special values is checked by the oracle in both units"],
         "rule": "systems containing explicit-angle requests with angles from a dense set around 0, +-90, 180, 360 (and 270, -180, 45, ...) in degrees and radians, at one and at several priority levels, solvable and unsolvable; planted systems with and without deliberately collapsed guesses (zero-length lines, coincident points, zero-radius arcs); every warning in Ok and Err results is audited against the request it names",
     },
